@@ -29,6 +29,19 @@ def corpus(wd):
     return roots
 
 
+def walk_roots(wd, rng, roots, n):
+    """thorough tier: further roots, taken from random legal games started at the corpus roots (every position of such a game is
+    reachable by legal moves from a TLC-checked root); TLC (PosFilter) supplies the number of legal moves used to size the cases"""
+    cases = [{"id": i + 1, "fen": rng.choice(roots)["fen"], "ops": [{"op": "walk", "plies": rng.choice([10, 30, 60, 120]), "seed": rng.randrange(1 << 30)}]}
+             for i in range(max(1, n // 8))]
+    tr = run_harness("board", cases, wd, "walkroots", "C01")
+    fens = list(dict.fromkeys(e["snap"]["fen"] for e in read_ndjson(tr) if e["ev"] == "make"))
+    fens = rng.sample(fens, min(len(fens), n))
+    cls = posfilter(wd, fens, "wr")
+    known = {r["fen"] for r in roots}
+    return [{"fen": f, "tags": ["walk"], "n": cls[f]["nlegal"]} for f in fens if cls[f]["wf"] and f not in known]
+
+
 def keys_file(wd):
     p = os.path.join(wd, "keys.json")
     r = subprocess.run([IKV, "keys", p], stdout=subprocess.PIPE, stderr=subprocess.PIPE, text=True)
@@ -174,12 +187,12 @@ def cases_for(prop, tier, roots, rng, wd=None):
     if prop == "C01":
         for r in roots:
             add(r["fen"], [{"op": "dfs", "depth": 1}], "all generators at the root and after every move")
-        for r in pick(sparse, 30 if T else 6) + pick(dense, 12 if T else 2):
+        for r in pick(sparse, 120 if T else 6) + pick(dense, 30 if T else 2):
             add(r["fen"], [{"op": "dfs", "depth": 2}], "depth-2 tree")
         if T:
             for r in pick([r for r in roots if r["n"] <= 12], 10):
                 add(r["fen"], [{"op": "dfs", "depth": 3}], "depth-3 tree")
-        for r in pick(roots, 60 if T else 14):
+        for r in pick(roots, 300 if T else 14):
             add(r["fen"], [{"op": "walk", "plies": 120 if T else 50, "seed": rng.randrange(1 << 30)}], "random legal game")
         for r in pick(tagged("perft", "castle", "ep", "promo"), 20 if T else 5):
             add(r["fen"], [{"op": "perft", "depth": 2}], "perft(2) per root move")
@@ -188,40 +201,40 @@ def cases_for(prop, tier, roots, rng, wd=None):
     elif prop == "C02":
         for r in roots:
             add(r["fen"], [{"op": "dfs", "depth": 1}], "every legal move made once")
-        for r in pick(roots, 50 if T else 12):
+        for r in pick(roots, 200 if T else 12):
             for h in (HMCS if T else pick(HMCS, 4)):
                 f = with_clocks(r["fen"], h, rng.choice(FMNS))
                 add(f, [{"op": "dfs", "depth": 1}], "clock sweep")
-        for r in pick(roots, 50 if T else 10):
+        for r in pick(roots, 200 if T else 10):
             add(r["fen"], [{"op": "walk", "plies": 400 if T else 150, "seed": rng.randrange(1 << 30)}], "long game")
         for r in pick(tagged("ending"), 10 if T else 3):
             n = 300 if T else 100
             add(with_clocks(r["fen"], rng.choice([90, 120, 300, 3900]), rng.choice(FMNS), n),
                 [{"op": "walk", "plies": n, "seed": rng.randrange(1 << 30)}], "long game, high clocks")
         # any clock: every emitted move made once on a fresh board (no probe, no unmake: the 12-bit undo field of C03 plays no part)
-        for r in pick(roots, 40 if T else 10):
+        for r in pick(roots, 150 if T else 10):
             for h in (BIG_HMCS if T else pick(BIG_HMCS, 3)):
                 f = r["fen"].split(" ")
                 add(" ".join(f[:4] + [str(h), str(rng.choice(FMNS))]), [{"op": "bare_all"}], "bare make at any half-move clock")
         # the usual way of playing a move: by its text, the board probing legality itself before it makes the move
-        for r in pick(roots, 40 if T else 10):
+        for r in pick(roots, 150 if T else 10):
             n = 120 if T else 40
             add(with_clocks(r["fen"], rng.choice(HMCS), rng.choice(FMNS), n),
                 [{"op": "walk_uci", "plies": n, "seed": rng.randrange(1 << 30)}], "game played through make_uci, arbitrary clocks")
     elif prop == "C03":
         for r in roots:
             add(r["fen"], [{"op": "dfs", "depth": 1}], "make/unmake of every emitted move, legal or not")
-        for r in pick(sparse, 20 if T else 4) + pick(dense, 8 if T else 1):
+        for r in pick(sparse, 100 if T else 4) + pick(dense, 25 if T else 1):
             add(r["fen"], [{"op": "dfs", "depth": 2}], "nested make/unmake")
-        for r in pick(roots, 60 if T else 12):
+        for r in pick(roots, 250 if T else 12):
             for h in (HMCS if T else pick([127, 128, 129, 255, 1000, 4094], 3)):
                 add(with_clocks(r["fen"], h, rng.choice(FMNS)), [{"op": "dfs", "depth": 1}], "clock sweep incl. >= 128")
-        for r in pick(roots, 60 if T else 12):
+        for r in pick(roots, 250 if T else 12):
             n = rng.choice([5, 20, 80, 200]) if T else rng.choice([5, 20, 60])
             add(with_clocks(r["fen"], rng.choice(HMCS), rng.choice(FMNS), n),
                 [{"op": "line", "plies": n, "seed": rng.randrange(1 << 30)}],
                 "line made then unmade in reverse")
-        for r in pick(roots, 30 if T else 8):
+        for r in pick(roots, 120 if T else 8):
             add(with_clocks(r["fen"], rng.choice(HMCS), rng.choice(FMNS), 2),
                 [{"op": "gen"}, {"op": "perft", "depth": 2}, {"op": "gen"}, {"op": "san_all"}, {"op": "gen"}],
                 "read-only calls that make/unmake internally")
@@ -233,16 +246,16 @@ def cases_for(prop, tier, roots, rng, wd=None):
         for r in tagged("ending"):
             for _ in range(12 if T else 3):
                 add(r["fen"], [{"op": "walk", "plies": 200 if T else 80, "seed": rng.randrange(1 << 30)}], "random play into mates/stalemates")
-        for r in pick(roots, 40 if T else 8):
+        for r in pick(roots, 200 if T else 8):
             add(r["fen"], [{"op": "walk", "plies": 150 if T else 60, "seed": rng.randrange(1 << 30)}], "random legal game")
         for f in extra:
             add(f, [{"op": "dfs", "depth": 1}], "move-less positions that still have pseudo-legal moves, and e.p. discovered-check geometry (TLC-filtered candidates)")
     elif prop == "C06":
         for r in roots:
             add(r["fen"], [{"op": "dfs", "depth": 1}], "delta of every emitted move")
-        for r in pick(sparse, 20 if T else 4) + pick(dense, 8 if T else 1):
+        for r in pick(sparse, 100 if T else 4) + pick(dense, 25 if T else 1):
             add(r["fen"], [{"op": "dfs", "depth": 2}], "depth-2 tree")
-        for r in pick(roots, 80 if T else 16):
+        for r in pick(roots, 300 if T else 16):
             n = 300 if T else 100
             add(with_clocks(r["fen"], rng.choice(HMCS), rng.choice(FMNS), n),
                 [{"op": "walk", "plies": n, "seed": rng.randrange(1 << 30)}], "random game, arbitrary clocks")
@@ -462,7 +475,7 @@ def san_mutations(rng, sans, foreign):
 
 def text_cases(prop, tier, roots, rng, wd):
     T = tier == "thorough"
-    sample = rng.sample(roots, min(len(roots), 80 if T else 24))
+    sample = rng.sample(roots, min(len(roots), 300 if T else 24))
     fens = [r["fen"] for r in sample]
     if prop == "C14":
         fens += like_piece_fens(rng, 400 if T else 60)
@@ -506,10 +519,10 @@ def text_cases(prop, tier, roots, rng, wd):
             ops += [{"op": "uci_to_pgn", "s": x} for x in rng.sample(legal, min(len(legal), 5)) + illegal[:3]]
             add(fen, ops, "SAN of every legal move, parse-back, and strings that denote nothing / are ambiguous")
     if prop == "C13":
-        for r in rng.sample(roots, min(len(roots), 40 if T else 10)):
+        for r in rng.sample(roots, min(len(roots), 150 if T else 10)):
             add(r["fen"], [{"op": "uci_batch"}, {"op": "gen"}], "all 64x64x6 move strings")
         # the same calls at arbitrary clocks: a rejected call restores the clocks too, an accepted one counts them on
-        for fen in rng.sample(fens, min(len(fens), 60 if T else 16)):
+        for fen in rng.sample(fens, min(len(fens), 250 if T else 16)):
             g = gen[fen]
             if not g["wf"]:
                 continue
@@ -521,7 +534,7 @@ def text_cases(prop, tier, roots, rng, wd):
     else:
         for r in (roots if T else rng.sample(roots, min(len(roots), 36))):
             add(r["fen"], [{"op": "dfs", "depth": 1, "mode": "san"}], "SAN at the root and after every move")
-        for r in rng.sample(roots, min(len(roots), 40 if T else 8)):
+        for r in rng.sample(roots, min(len(roots), 200 if T else 8)):
             add(r["fen"], [{"op": "walk", "plies": 150 if T else 60, "seed": rng.randrange(1 << 30), "mode": "san"}], "SAN along a random game")
         for r in [r for r in roots if "ending" in r["tags"]]:
             for _ in range(8 if T else 2):
@@ -653,6 +666,8 @@ def check_board_prop(prop, tier, replay=None):
         cases = [c]
     else:
         roots = corpus(wd)
+        if tier == "thorough":
+            roots = roots + walk_roots(wd, rng, roots, 700)
         if prop in ("C13", "C14"):
             cases, _ = text_cases(prop, tier, roots, rng, wd)
         else:
